@@ -230,6 +230,92 @@ class LibTable:
 
 BITS = ["ver", "method", "urlparse", "url", "host", "noce", "reqtext", "respcl", "resptext"]
 
+import codecs, re as _re
+
+
+def ref_parse_ct(c):
+    parts = c.split(";", 1)
+    ts = parts[0].split("/", 1)
+    if len(ts) != 2: return None
+    d = {}
+    if len(parts) == 2:
+        for i in parts[1].split(";"):
+            cl = i.split("=", 1)
+            if len(cl) == 2: d[cl[0].strip()] = cl[1].strip()
+    return d
+
+
+def ref_infer(content_type, content=b""):
+    """the harness' own statement of which charset a body has (a transcription of the documented rules of
+    infer_content_encoding on the tree the findings were recorded on): BOM, charset parameter, json/html/xml/
+    javascript/css defaults and in-body declarations, latin-1 fallback, gb2312/gbk -> gb18030.  Used ONLY to
+    decide whether a failure is an instance of F-C41f / F-C41h; a library that starts answering differently
+    cannot excuse itself."""
+    enc = None
+    if content.startswith(b"\x00\x00\xfe\xff"): enc = "utf-32be"
+    elif content.startswith(b"\xff\xfe\x00\x00"): enc = "utf-32le"
+    elif content.startswith(b"\xfe\xff"): enc = "utf-16be"
+    elif content.startswith(b"\xff\xfe"): enc = "utf-16le"
+    elif content.startswith(b"\xef\xbb\xbf"): enc = "utf-8-sig"
+    else:
+        d = ref_parse_ct(content_type)
+        if d: enc = d.get("charset")
+    if not enc and "json" in content_type: enc = "utf8"
+    if not enc and "html" in content_type:
+        m = _re.search(rb"""<meta[^>]+charset=['"]?([^'">]+)""", content, _re.IGNORECASE)
+        enc = m.group(1).decode("ascii", "ignore") if m else "utf8"
+    if not enc and "xml" in content_type:
+        m = _re.search(rb"""<\?xml[^\?>]+encoding=['"]([^'"\?>]+)""", content, _re.IGNORECASE)
+        enc = m.group(1).decode("ascii", "ignore") if m else "utf8"
+    if not enc and ("javascript" in content_type or "ecmascript" in content_type): enc = "utf8"
+    if not enc and "text/css" in content_type:
+        m = _re.match(rb"""@charset "([^"]+)";""", content, _re.IGNORECASE)
+        enc = m.group(1).decode("ascii", "ignore") if m else "utf8"
+    if not enc: enc = "latin-1"
+    if enc.lower() in ("gb2312", "gbk"): enc = "gb18030"
+    return enc
+
+
+_NOT_CHARSETS = ("none", "identity", "gzip", "deflate", "deflateraw", "br", "zstd")
+
+
+class RefLib(LibTable):
+    """LibTable whose charset questions are answered by the harness' reference (ref_infer + CPython codecs)"""
+
+    def infer(self, ct, content):
+        return ref_infer(ct, content)
+
+    def cs_dec(self, cs, b):
+        if cs.lower() in _NOT_CHARSETS: return LibTable.cs_dec(self, cs, b)
+        try: r = codecs.decode(b, cs.lower(), "strict")
+        except Exception: return None
+        return r if isinstance(r, str) else None
+
+    def cs_enc(self, cs, s):
+        if cs.lower() in _NOT_CHARSETS: return LibTable.cs_enc(self, cs, s)
+        try: r = codecs.encode(s, cs.lower(), "strict")
+        except Exception: return None
+        return r if isinstance(r, bytes) else None
+
+
+def ref_url_risky(f):
+    """input property behind F-C41c / F-C41d: the URL shown for the flow is not plain ASCII with a lower-case host,
+    or the Host field is not exactly one canonical host[:non-default-port]"""
+    rq = f.request
+    u = rq.pretty_url
+    hosts = [v for n, v in rq.headers.fields if n.lower() == b"host"]
+    risky_url = (not u.isascii()) or len(hosts) > 1 or any(v != v.lower() or not v.isascii() for v in hosts) \
+        or rq.data.host != rq.data.host.lower() or not rq.data.host.isascii() or "xn--" in u.lower() \
+        or any(b"xn--" in v.lower() for v in hosts) or rq.method == "CONNECT" or rq.data.path == b"*"
+    dflt = {"http": 80, "https": 443}.get(rq.scheme)
+    def canonical(v):
+        h, _, p = v.rpartition(b":")
+        if h and p.isdigit():
+            return h.lower() if int(p) == dflt else h.lower() + b":" + p
+        return v.lower()
+    risky_host = len(hosts) > 1 or any(canonical(v) != v for v in hosts) or risky_url
+    return risky_url, risky_host
+
 
 def guard_bits(f, lt=None):
     """the guard conjuncts of Model/C41_Spec.lean (guardBits), evaluated with the real library functions:
@@ -346,12 +432,15 @@ class Check(PropertyCheck):
                   "passed per case from the real functions (driver reports lib-miss if it needs an answer it was not given). "
                   "Outside the model: flows without response, missing (None) bodies, websocket messages, cookies/query/timing "
                   "fields of the HAR entry, trailers, charset names that denote byte-to-byte codecs; HTTP/1.0 is generated but "
-                  "its version is outside the statement's quantifier and not demanded.")
+                  "its version is outside the statement's quantifier and not demanded. Which oracle failures count as instances of a "
+                  "recorded finding is decided from properties of the input only: charset questions by the harness' own reference "
+                  "(ref_infer + CPython codecs), URL/Host classes by ref_url_risky - not from the answers of the library under test.")
     technique = "Lean 4 proof (field mapping model, codecs as parameters with laws) + per-flow differential correspondence with the real export/import"
     rule = ("small-scope sweep first (methods x versions x body kinds x Content-Length/Content-Encoding/Host variants), then "
             "random flows: methods incl. lower-case/CONNECT/extension, HTTP/1.1 / 2.0 / 3 (/1.0), header sets with duplicates, "
             "case variants, empty / non-ASCII / non-UTF-8 values, content types with good, bad and sniffed charsets, content "
-            "codings (valid, invalid, mismatching), text/binary/BOM/mixed bodies, Host variants, 1-3 flows per file. "
+            "codings (valid, invalid, mismatching), text/binary/BOM/mixed bodies, mis-labelled bodies (declared charset x bytes that are "
+            "valid in it / valid UTF-8 instead / contain 0x81 0x8d 0x8f 0x90 0x9d / binary), Host variants, 1-3 flows per file. "
             "distinct = distinct case; every case is non-trivial (a full export+import).")
     has_model = True
     parallel = False
@@ -372,11 +461,20 @@ class Check(PropertyCheck):
         flows = [build_flow(fc) for fc in case["flows"]]
         orig = [view(f) for f in flows]
         guards = [guard_bits(f) for f in flows]
+        # the same conjuncts with the charset questions answered by the harness' reference instead of the code under
+        # test, plus input properties for the URL/Host classes: only these decide what known() may excuse
+        refs = []
+        for f, g in zip(flows, guards):
+            r = guard_bits(f, RefLib())
+            ru, rh_ = ref_url_risky(f)
+            refs.append({"ver": g["ver"], "method": g["method"], "urlparse": g["urlparse"] or not ru, "url": g["url"] or not ru,
+                         "host": g["host"] or not rh_, "req_ce": g["req_ce"], "resp_ce": g["resp_ce"], "noce": g["noce"],
+                         "reqtext": r["reqtext"], "respcl": g["respcl"], "resptext": r["resptext"]})
         try:
             har = SaveHar().make_har(flows)
             data = json.dumps(har, indent=4).encode()
         except Exception as e:
-            return {"orig": orig, "stage": "export-failed", "err": type(e).__name__, "tie": None, "guards": guards}
+            return {"orig": orig, "stage": "export-failed", "err": type(e).__name__, "tie": None, "guards": guards, "refs": refs}
         # per-entry view for the model tie: the HAR entry written and the flow request_to_flow makes of it
         tie = []
         for e in json.loads(data)["log"]["entries"]:
@@ -388,8 +486,8 @@ class Check(PropertyCheck):
             back = list(FlowReader(io.BytesIO(data)).stream())
         except exceptions.FlowReadException as e:
             c = e.__context__
-            return {"orig": orig, "stage": "import-failed", "err": type(c).__name__ if c else "FlowReadException", "tie": tie, "guards": guards}
-        return {"orig": orig, "stage": "ok", "back": [view(f) for f in back], "tie": tie, "guards": guards}
+            return {"orig": orig, "stage": "import-failed", "err": type(c).__name__ if c else "FlowReadException", "tie": tie, "guards": guards, "refs": refs}
+        return {"orig": orig, "stage": "ok", "back": [view(f) for f in back], "tie": tie, "guards": guards, "refs": refs}
 
     def model_lines(self, case):
         return [flow_line(build_flow(fc)) for fc in case["flows"]]
@@ -430,7 +528,15 @@ class Check(PropertyCheck):
     CTS = [b"text/plain", b"text/plain; charset=utf-8", b"text/plain; charset=latin-1", b"text/html", b"application/json",
            b"application/octet-stream", b"image/png", b"text/css", b"application/x-www-form-urlencoded",
            b"text/plain; charset=utf-16", b"text/plain; charset=bogus", b"text/html; charset=gbk", b"application/xml",
-           b"multipart/form-data; boundary=xx"]
+           b"multipart/form-data; boundary=xx", b"text/plain; charset=ISO-8859-1", b"text/html; charset=iso-8859-1",
+           b"text/plain; charset=us-ascii", b"text/plain; charset=windows-1252", b"text/plain; charset=shift_jis",
+           b"text/plain; charset=UTF-8", b"application/x-www-form-urlencoded; charset=ISO-8859-1"]
+    # declared charset x what the bytes really are (mis-labelled bodies)
+    LABELS = ["ISO-8859-1", "iso-8859-1", "us-ascii", "latin-1", "latin1", "utf-8", "UTF-8", "windows-1252", "cp1252",
+              "shift_jis", "iso-8859-15", "koi8-r", "ascii", "utf-16", "gbk"]
+    MISTEXTS = ["P\u00c1GINA NO ENCONTRADA", "T\u00cdTULO: \u00ddmir y \u00d0\u00f3rr", "NA\u00cfVE caf\u00e9", "\u00c1", "plain ascii",
+                "\u20ac 5 \u201cquoted\u201d \u2013 dash", "\u00e9\u00e8\u00ea \u00fc\u00f6\u00e4 \u00df", "\u65e5\u672c\u8a9e", "\u041f\u0440\u0438\u0432\u0435\u0442"]
+    ODD = [0x81, 0x8d, 0x8f, 0x90, 0x9d, 0x80, 0xa0, 0xff]
     CODINGS = [b"gzip", b"deflate", b"br", b"zstd", b"identity", b"bogus", b"GZIP"]
     HDR_POOL = [(b"Accept", b"*/*"), (b"accept", b"text/html"), (b"X-A", b"1"), (b"X-A", b"2"), (b"x-a", b"3"),
                 (b"User-Agent", b"ua/1.0 (x; y)"), (b"Cookie", b"a=b; c=d"), (b"Cookie", b"e=f"),
@@ -443,6 +549,23 @@ class Check(PropertyCheck):
     TEXTS = ["hello", "hello world\n" * 12, "héllo wörld €", "{\"a\": [1, 2, \"é\"]}", "a=1&b=2&c=%C3%A9",
              "<html><head><meta charset=\"latin-1\"></head><body>café</body></html>", "@charset \"utf-8\";\nbody{}",
              "<?xml version=\"1.0\" encoding=\"iso-8859-1\"?><a>é</a>", "﻿bom text", "日本語のテキスト", "x" * 300, "tab\tcr\r\nlf"]
+
+    def gen_mislabelled(self, rng):
+        """(content-type, body): declared charset x actual bytes that are (a) valid in the declared charset,
+        (b) valid UTF-8 whatever the label says, (c) text with bytes undefined in common code pages, (d) binary"""
+        label = rng.pick(self.LABELS)
+        ct = rng.pick([b"text/plain", b"text/html", b"application/x-www-form-urlencoded", b"text/csv"]) + b"; charset=" + label.encode()
+        t = rng.pick(self.MISTEXTS)
+        k = rng.weighted([(3, "a"), (4, "b"), (2, "c"), (1, "d")])
+        if k == "a":
+            try: return ct, t.encode(label)
+            except (UnicodeError, LookupError): return ct, t.encode("utf-8")
+        if k == "b": return ct, t.encode("utf-8")
+        if k == "c":
+            b = bytearray(("some text " + t).encode("latin-1", "replace") * rng.randint(1, 3))
+            for _ in range(rng.randint(1, 2)): b.insert(rng.randint(0, len(b)), rng.pick(self.ODD))
+            return ct, bytes(b)
+        return ct, rng.bytes_(rng.pick([3, 30, 120]))
 
     def gen_body(self, rng, ct):
         k = rng.weighted([(2, "empty"), (5, "text"), (2, "bin"), (1, "enc"), (1, "bom"), (1, "mixed")])
@@ -482,6 +605,8 @@ class Check(PropertyCheck):
             hs.append(rng.pick(pool))
         ct = rng.pick(self.CTS) if rng.chance(0.7) else None
         body = self.gen_body(rng, ct)
+        if rng.chance(0.25):
+            ct, body = self.gen_mislabelled(rng)
         if ct is not None:
             hs.insert(rng.randint(0, len(hs)), (rng.pick([b"Content-Type", b"content-type", b"CONTENT-TYPE"]), ct))
         if rng.chance(0.12 if not is_req else 0.04):
@@ -537,6 +662,20 @@ class Check(PropertyCheck):
     def sweep(self):
         """small scope, systematic: method x version x request body x response body/headers variants"""
         bodies = [b"", b"hello", "h\u00e9llo".encode(), bytes(range(0, 40)), b"\xff\xfe\x00\x01"]
+        # declared charset x UTF-8 / single-byte spellings of letters whose UTF-8 or cp125x bytes are "odd" (0x81 0x8d 0x8f 0x90 0x9d)
+        for label in ("ISO-8859-1", "us-ascii", "latin1", "utf-8", "windows-1252", "shift_jis"):
+            for text in ("P\u00c1GINA", "T\u00cdTULO \u00dd \u00d0 \u00cf", "caf\u00e9", "\u20ac"):
+                for enc in ("utf-8", "latin-1", "cp1252"):
+                    try: b = text.encode(enc)
+                    except UnicodeError: continue
+                    ctv = b"text/plain; charset=" + label.encode()
+                    for method in (b"GET", b"POST"):
+                        yield {"flows": [{
+                            "method_hex": hx(method), "scheme": "http", "host": "example.com", "port": 80, "path_hex": hx(b"/m"),
+                            "authority_hex": "-", "ver": "HTTP/1.1",
+                            "rh": _h([(b"Host", b"example.com")] + ([(b"Content-Type", ctv), (b"Content-Length", str(len(b)).encode())] if method == b"POST" else [])),
+                            "rbody_hex": hx(b if method == b"POST" else b""), "status": 200, "sver": "HTTP/1.1",
+                            "sh": _h([(b"Content-Type", ctv), (b"Content-Length", str(len(b)).encode())]), "sbody_hex": hx(b)}]}
         for method in (b"GET", b"POST", b"PUT", b"PATCH", b"DELETE", b"HEAD", b"OPTIONS"):
             for ver in ("HTTP/1.1", "HTTP/2.0", "HTTP/3"):
                 for rb in (bodies if method in (b"POST", b"PUT", b"PATCH") else [b""]):
@@ -563,7 +702,7 @@ class Check(PropertyCheck):
     def generate(self, rng, tier):
         sw = list(self.sweep())
         if tier == "quick":
-            sw = [c for i, c in enumerate(sw) if i % 4 == rng.randint(0, 3)]
+            sw = [c for i, c in enumerate(sw) if i < 120 or i % 4 == rng.randint(0, 3)]
         yield from sw
         while True:
             n = rng.weighted([(8, 1), (1, 2), (1, 3)])
@@ -578,25 +717,41 @@ class Check(PropertyCheck):
             out.append("ver:" + fc["ver"]); out.append("method:" + unhx(fc["method_hex"]).decode().upper())
             bad = [k for k in BITS if not g[k]]
             out.append("guard:all-hold" if not bad else "guard:fails:" + "+".join(bad))
+        for g, r in zip(obs["guards"], obs["refs"]):
+            d = [k for k in BITS if g[k] != r[k]]
+            if d: out.append("guard-vs-reference-differs:" + "+".join(d))
         if obs["stage"] == "ok":
             out.append("oracle:" + ("pass" if not self.oracle(case, obs) else "fail"))
         return out
 
     def known(self, case, obs, failure):
         """a failure is an instance of a recorded finding iff the flow it is about fails the guard conjunct of that
-        finding (Model/C41_Spec.lean; the bits are cross-checked against the Lean definitions by the tie) and the
-        failing field is one that class can affect.  A flow passing the whole guard can never be excused."""
+        finding (Model/C41_Spec.lean) and the failing field is one that class can affect.  The conjuncts used here
+        (obs["refs"]) are properties of the INPUT: charset questions are answered by the harness' reference
+        (ref_infer + CPython codecs), URL/Host classes additionally need the input property ref_url_risky; the bits
+        computed from the code's own library answers (obs["guards"]) are only compared with the Lean guard by the
+        tie.  A flow passing the whole guard can never be excused."""
         tag = failure.split(":", 1)[0]
         if tag.startswith("import-failed"):
-            return "F-C41c" if any(not g["urlparse"] for g in obs["guards"]) else None
+            return "F-C41c" if any(not g["urlparse"] for g in obs["refs"]) else None
         if "[" not in tag: return None
         field, idx = tag[:-1].split("[")
-        g = dict(obs["guards"][int(idx)])
+        g = dict(obs["refs"][int(idx)])
         g["req_noce"], g["resp_noce"] = not g["req_ce"], not g["resp_ce"]
         for fid, bit, tags in FINDINGS:
             if field in tags and not g[bit]:
                 return fid
         return None
+
+    def shrink_candidates(self, case):
+        """generic reductions, but never touch method / path / authority (an empty path or method is not a flow the
+        generator can produce and fails for unrelated reasons)"""
+        from common.check import generic_shrink
+        keep = ("method_hex", "path_hex", "authority_hex")
+        for c in generic_shrink(case):
+            if len(c["flows"]) == len(case["flows"]) and any(a[k] != b[k] for a, b in zip(c["flows"], case["flows"]) for k in keep):
+                continue
+            yield c
 
     def neighbours(self, case, rng):
         for i, fc in enumerate(case["flows"]):
